@@ -128,6 +128,12 @@ func (s *stubTransport) ReceivedStreamClose() {
 	s.mu.Unlock()
 }
 
+func (s *stubTransport) writeCount() int {
+	s.mu.Lock()
+	defer s.mu.Unlock()
+	return s.nwrite
+}
+
 func (s *stubTransport) takeWrites() [][]byte {
 	s.mu.Lock()
 	defer s.mu.Unlock()
